@@ -136,7 +136,7 @@ def sem_validate(b, runnable):
                 dis.append((c, "SEM-THM: a program of the scalar theorem's fragment runs in Sem/Src (" + src1 + ") but not in Sem/Bash", "U"))
             ok1 = src1 != "U" and not src1.startswith(("brk", "cont"))
             ok2 = sh1 != "U" and not sh1.startswith(("brk", "cont"))
-            if ok2 and not r["timeout"] and r["stderr"] == b"" and sh1 != real:
+            if ok2 and not r["timeout"] and r["stderr"] == b"" and sh1 != real and real == want:
                 dis.append((c, "SEM-SH: the scalar bash model Sem/Bash says " + sh1, "/bin/bash says " + real))
             if ok1 and src1 != want and real == want:
                 dis.append((c, "SEM-SRC: the scalar source semantics Sem/Src says " + src1, "reference interpreter and /bin/bash say " + want))
@@ -146,7 +146,10 @@ def sem_validate(b, runnable):
         ok_sh = sh != "U" and not sh.startswith(("brk", "cont"))
         if ok_sh:
             SEM_STATS["sh_supported"] += 1
-            if not r["timeout"] and r["stderr"] == b"" and sh != real:
+            # the bash model is validated where /bin/bash does what the reference says; where the real script deviates from the
+            # reference (a defect, known or new) the property's own oracle reports it, and the deviation may well come from
+            # something this model does not have (special shell variables such as SECONDS, `$` in a literal, ...)
+            if not r["timeout"] and r["stderr"] == b"" and sh != real and real == want:
                 dis.append((c, "SEM-SH: the bash model Sem/Bash says " + sh, "/bin/bash says " + real))
         if ok_src:
             SEM_STATS["src_supported"] += 1
